@@ -112,4 +112,12 @@ CLAIMED["C03"] = {
     "text": PARTIAL + "block and index padding is (-count) mod 4 (term evaluated on all residues and near 2^32); multi-byte integers use (byte & 0x7F) << 7i, continuation bit 0x80 (all 256 byte values), at most 9 bytes; the block header spans 4b - 1 bytes for all 255 size bytes with no overflow in the compiled widths; the byte counter feeding a block's index record is created per block and the record is (count after the check field - padding, decoded length); the check field is 0/4/8 bytes little-endian compared with the checksum of the block's bytes; optional size fields are read iff flag bits 0x40/0x80 and the filter count is (flags & 3) + 1 for all 256 flag bytes; the block loop dispatches 0 -> index (leave) / other -> block (continue) and every Ok path of read_block writes the block to the sink once. Declined: payload decoding (C02/C01), CRC arithmetic (crc crate).",
     "note": "Trusts rustc's MIR; the formulas in rules/C03.py transcribe xz-file-format 1.0.4; evaluates extracted expression terms (not the program).",
 }
-NOT_APPLICABLE = {p: WIP for p in ["C04","C05","C15"]}
+
+CLAIMED["C04"] = {
+    "engine": "E-CFG/E-TERM",
+    "technique": "static analysis: guards and emitted-byte terms of the writers extracted from MIR (flow-sensitive provenance terms) and evaluated over finite domains against the format; composition with the reader's extracted terms (inverse checks); sibling agreement encoder contexts / header; control dependence; must-pass-through",
+    "design_ref": "DESIGN.md section 4 / C04",
+    "text": PARTIAL + "the LZMA2 writer emits the end byte exactly when read() returned 0 (short reads continue), chunks are control 1, big-endian n-1 (fits: buffer <= 65536) and buf[..n], and reads again afterwards; the multi-byte writer partitions on value >= 0x80 with bytes 0x80|(v&0x7F) / v and carries v >> 7 (inverse of C03.R2); the XZ block header written is 4*(size byte+1) bytes with one accepted filter id, one property byte and zero padding; writer paddings are (-count) mod 4 zero bytes; reader_term(writer_term(s)) = s for the backward size and the index record / footer size come unmodified from the counting adapters; the .lzma header's properties byte decodes to the lc/lp/pb the encoder's own context indices use, the size field is all-ones / caller's value / absent per option, the end marker is written iff the size is declared unknown with the format's 1+1+4+6+30 bits, every Ok finish flushes; range-encoder constants (11-bit probabilities, shift 5 for all 2047 probabilities, top 2^24, 5-byte flush, initial state, carry constants) are the decoder's. Declined (not static): that the range-coded payload round-trips for every input (carry propagation, 2^32-range numerics), interoperability of the payload.",
+    "note": "Trusts rustc's MIR; constants in rules/C04.py transcribe the formats; evaluates extracted expression terms (not the program).",
+}
+NOT_APPLICABLE = {p: WIP for p in ["C05","C15"]}
